@@ -35,6 +35,8 @@ type Server struct {
 	ListFault func(n int) (runtime.Object, error, bool)
 	// WatchFault, when non-nil, decides what the n-th (1-based) Watch call does.
 	WatchFault func(n int, rv string) WatchMode
+	// Kind selects the list type returned (default pod).
+	Kind string
 	// RVStep spaces resource versions (default 1).
 	RVStep int
 
@@ -177,7 +179,11 @@ func (s *Server) List(ctx context.Context, opts metav1.ListOptions) (runtime.Obj
 	objs, rv := s.stateLocked(), strconv.Itoa(s.rv)
 	s.mu.Unlock()
 	finish(rv, false)
-	return PodList(objs, rv), nil
+	kind := s.Kind
+	if kind == "" {
+		kind = "pod"
+	}
+	return TypedList(kind, objs, rv), nil
 }
 
 var ErrWatchConnect = errors.New("fake server: watch connect error")
